@@ -439,6 +439,7 @@ type run struct {
 	addErr   map[string]error
 	stepNo   int
 	defResp  string
+	corrupt  map[uint32]bool // pages whose XOR leaf the environment corrupted and the repair has not visited yet
 	fatalGen map[string]int
 	killed   bool // the incarnation died inside a receiver; steps until the scripted Crash cannot happen
 	restarts int
@@ -739,7 +740,8 @@ func (r *run) checkDerived(st dag.State, db stoabs.KVStore, when string, skipXor
 		}
 		skip := false
 		for pg := range skipXorPages {
-			if pg*dag.PageSize <= upto {
+			// a digest up to the highest clock is the tree root and covers every leaf, also one beyond the highest clock
+			if pg*dag.PageSize <= upto || upto >= s.maxLc {
 				skip = true
 			}
 		}
@@ -860,7 +862,7 @@ func (r *run) quiescent(actors map[string]bool) bool {
 func (w0 *world) runScript(t *testing.T, sc script) *result {
 	w := w0.variant(sc.Defects)
 	res := &result{ID: sc.ID, Violations: []violation{}, Drift: []string{}, Trace: []map[string]any{}}
-	r := &run{w: w, res: res, actors: map[string]bool{}, fatalGen: map[string]int{}, ledger: map[string][]string{}, finished: map[string]bool{}, respQ: map[string][]string{}, addErr: map[string]error{}}
+	r := &run{w: w, res: res, actors: map[string]bool{}, corrupt: map[uint32]bool{}, fatalGen: map[string]int{}, ledger: map[string][]string{}, finished: map[string]bool{}, respQ: map[string][]string{}, addErr: map[string]error{}}
 	r.path = filepath.Join(w.dir, "run-"+sc.ID+".db")
 	defer os.Remove(r.path)
 	if err := copyFile(w.template, r.path); err != nil {
@@ -896,7 +898,7 @@ func (w0 *world) runScript(t *testing.T, sc script) *result {
 	expectedCalls := map[string]int{}
 	actors := r.actors
 	lastLW := map[string]string{}
-	corruptPages := map[uint32]bool{}
+	corruptPages := r.corrupt
 	var deferred []step
 	props := map[string]bool{}
 	for _, p := range w.in.Props {
@@ -1270,6 +1272,11 @@ func (r *run) finish(actors map[string]bool) *result {
 		props[p] = true
 	}
 	r.settle()
+	// pages the environment corrupted and the script did not repair: the repair procedure must restore them
+	for pg := range r.corrupt {
+		dagVerifCheckPage(r.inc.st, pg)
+		delete(r.corrupt, pg)
+	}
 	for i := 0; i < r.restarts; i++ {
 		if err := r.crash(); err != nil {
 			r.res.Error = err.Error()
